@@ -220,3 +220,46 @@ def arr(ctx, mix, ranks, d, m, ny, repeats):
         ctx.check('arr: dims of the guess', t.row_dims == n)
     ctx.eq('arr: the initial guess is not modified', guess.full(), gd)
     ctx.check('arr: results are new objects', all(t is not guess for t in sol))
+
+
+@scenario('C16', 'mandy_threshold', lambda tier: [{'variant': v, 'd': d, 'm': m} for v in ('cm', 'fm') for d in (1, 2) for m in (2, 3)])
+def mandy_threshold(ctx, variant, d, m):
+    """MANDy with a SYMBOLIC relative threshold: on every path the number of singular values kept by the final SVD follows the documented RELATIVE rule
+    (s_j / s_0 > threshold), and the result is U_r diag(1/s_r) Vh_r y^T with the leading r triplets"""
+    reg, tdt = ctx.R.regression, ctx.R.transform
+    if ctx.mode == 'tv':
+        raise SkipTV()
+    x = ctx.input('x', (d, m), False)
+    y = ctx.input('y', (d, m), False)
+    fs = _scalar_funcs(ctx, tdt, ['id', 'mono2'])
+    label = 'mandy == (y Psi^+)^T'
+    if not ctx.sym:
+        # concrete: a threshold well below the smallest singular-value ratio must not change the least-squares solution
+        build = (lambda: tdt.coordinate_major(x, fs)) if variant == 'cm' else (lambda: tdt.function_major(x, fs, add_one=False))
+        psi0 = build()
+        Pm = np.asarray(psi0.full()).reshape(-1, m) * 1e-3          # small amplitudes: absolute and relative cuts differ
+        xs = np.asarray(x) * (1e-3 if variant == 'cm' else 1e-3)
+        sv = np.linalg.svd(np.asarray((tdt.coordinate_major(xs, fs) if variant == 'cm' else tdt.function_major(xs, fs, add_one=False)).full()).reshape(-1, m), compute_uv=False)
+        th = float(sv[-1] / sv[0]) / 5
+        if th > 1e-12:
+            xi = reg.mandy_cm(xs, np.asarray(y), fs, threshold=th) if variant == 'cm' else reg.mandy_fm(xs, np.asarray(y), fs, threshold=th, add_one=False)
+            P2 = np.asarray((tdt.coordinate_major(xs, fs) if variant == 'cm' else tdt.function_major(xs, fs, add_one=False)).full()).reshape(-1, m)
+            ctx.eq(label, np.asarray(xi.full()).reshape(-1, d), (np.asarray(y) @ np.linalg.pinv(P2)).T, tol=1e-5)
+        return
+    theta = ctx.scalar('theta', lo=(0,), hi=(1,))
+    from .C04 import _kept, _cut_ok
+
+    def body():
+        from symtt import state
+        free_policy(ctx, positive_spectrum='first', assume_sorted_spectrum=True)
+        xi = reg.mandy_cm(x, y, fs, threshold=theta) if variant == 'cm' else reg.mandy_fm(x, y, fs, threshold=theta, add_one=False)
+        svds = [c for c in state.S.stub_log if c.kind == 'svd']
+        mid = svds[-1]
+        r = xi.ranks[-2]
+        with ctx.group(label):
+            exp_r = _kept(ctx, mid, theta, True, None)
+            ctx.check('path ranks=%s: final SVD keeps the documented number of singular values (relative cut)' % (xi.ranks,), r == exp_r, detail='%d vs %d' % (r, exp_r))
+            _cut_ok(ctx, 'path ranks=%s final SVD' % (xi.ranks,), mid, r, theta, True, None)
+        return r
+    res = ctx.explore('mandy threshold', body)
+    ctx.check('at least one feasible path', len(res) >= 1)
